@@ -107,7 +107,8 @@ def plan(tier, seed):
             lazy.append({'kind': 'dense', 'm': m, 'solver': sv})
     for k, sv in itertools.product(('btb_d', 'd_toep', 'blockspd', 'spd_tree'), SOLVERS):
         lazy.append({'kind': k, 'solver': sv})
-    for k in ('rect', 'blockrect', 'index'):
+    # 'eq_*': input and output hold the same NUMBER of elements but are different structures - not square either
+    for k in ('rect', 'blockrect', 'index', 'eq_ravel', 'eq_reshape', 'eq_block_ravel', 'eq_dense_2x3_to_6'):
         lazy.append({'kind': k, 'solver': 'cg6'})
     return [
         {'name': 'closed', 'target': TARGET, 'x64': False, 'cases': closed, 'chunk': 12},
@@ -320,6 +321,17 @@ def build_lazy(case):
         return dn([[1, 2], [3, 5], [-1, 4]], a), 'nonsquare'
     if k == 'blockrect':
         return BlockRowOperator([dn([[1, 2], [3, 5]], a), dn([[0, 1], [-1, 2]], a)]), 'nonsquare'
+    if k in ('eq_ravel', 'eq_reshape', 'eq_block_ravel', 'eq_dense_2x3_to_6'):
+        from furax._base.axes import RavelOperator, ReshapeOperator
+
+        s23 = jax.ShapeDtypeStruct((2, 3), D)
+        if k == 'eq_ravel':
+            return RavelOperator(in_structure=s23), 'nonsquare'
+        if k == 'eq_reshape':
+            return ReshapeOperator((3, 1), in_structure=jax.ShapeDtypeStruct((1, 3), D)), 'nonsquare'
+        if k == 'eq_block_ravel':
+            return BlockDiagonalOperator([RavelOperator(in_structure=s23)]), 'nonsquare'
+        return RavelOperator(in_structure=s23) @ DiagonalOperator(jnp.asarray(np.arange(6.0).reshape(2, 3) + 1, D), in_structure=s23), 'nonsquare'
     if k == 'index':
         return IndexOperator(jnp.array([0, 2]), in_structure=sds(3), out_structure=sds(2)), 'nonsquare'
     raise KeyError(k)
